@@ -11,8 +11,8 @@ CLAIMED = {
    note="The verifier is sequential: 'frames never interleave under any schedule' follows from these obligations by the mutual-exclusion argument of DESIGN 2.4 (stated, not machine-checked). The best-effort isWriting flag and data races on other fields are not decided. Trusted: channel-as-mutex and net.Conn models, govc, go/ssa, solvers.",
    design="7/C15"),
  "C14": dict(
-   text="Contracts on the real advanceFrame against RFC 6455 5.2-5.5 rule predicates over the ghost input stream: an accepted frame has legal RSV bits and a known opcode, control frames are final and declare at most 125 bytes, data/continuation sequencing follows the message-in-progress flag, the mask bit matches the role, the remaining-bytes counter equals the declared length and is never negative (64-bit lengths with the top bit set are refused), the message length accumulates over fragments without overflow and never passes a configured read limit; every protocol error sends Close 1002 (call-site assertion on WriteControl) and returns an error; the received-close-code table is checked against RFC 7.4.1 for all codes.",
-   note="ASSUMED: user-supplied ping/pong/close handlers do not modify reader state; writes through a slice of the mask-key array field are not tracked; maskBytes (unsafe) and WriteControl are trusted contracts here. Sticky errors in NextReader and the no-short-message-on-cut clause of messageReader.Read are not under contract. Trusted: bufio.Reader Peek/Discard stream contracts, govc, go/ssa, solvers.",
+   text="Contracts on the real advanceFrame against RFC 6455 5.2-5.5 rule predicates over the ghost input stream: an accepted frame has legal RSV bits and a known opcode, control frames are final and declare at most 125 bytes, data/continuation sequencing follows the message-in-progress flag, the mask bit matches the role, the remaining-bytes counter equals the declared length and is never negative (64-bit lengths with the top bit set are refused), the message length accumulates over fragments without overflow and never passes a configured read limit; every protocol error sends Close 1002 (call-site assertion on WriteControl) and returns an error; the received-close-code table is checked against RFC 7.4.1 for all codes. Message reader and NextReader: a clean end (io.EOF) is reported only by a superseded reader or after the final frame has been read to its last byte - a message cut by the transport, inside a frame or between the frames of a fragmented message, ends with an unexpected-EOF error, never cleanly; bytes are only handed out from the frame in progress; the first read error is sticky (returned again, nothing more taken from the transport, remembered by NextReader); NextReader announces only text/binary messages; both loops terminate (measure: unread input).",
+   note="ASSUMED: user-supplied ping/pong/close handlers do not modify reader state; writes through a slice of the mask-key array field are not tracked; maskBytes (unsafe) and WriteControl are trusted contracts here. The decompressing reader (compress/flate) and the byte CONTENTS delivered by messageReader.Read (unmasking) are not under contract; io.ReadCloser.Close of the previous message's reader is an interface contract (touches that reader only). Trusted: bufio.Reader Peek/Discard stream contracts, govc, go/ssa, solvers.",
    design="7/C14"),
  "C18": dict(
    text="The connection-id counter is declared shared/atomic: every plain read or write of it is a failed obligation (the repaired code goes through sync/atomic); WithContext stores exactly the value returned by the atomic increment (so ids are pairwise distinct); AliasContext returns a context carrying exactly its source's id; every logging entry point (Println/Printf/doPrintln/doPrintf) hands exactly one line to the underlying log.Logger on every path (ghost emission counter), for nil contexts, id-carrying objects and context.Context values; the first thing on that line is the prefix made by fmt.Sprintf from the pid and the id of the context that was passed (context.Context value / object's Cid() / pid only for nil), with fmt.Sprintf and os.Getpid as uninterpreted pure functions.",
